@@ -76,7 +76,8 @@ def run(chk):
         "(S-expression decoding, cause attribution by the extracted Diag predicates)",
         "modelled by hand and tied by byte-exact correspondence: ast.Document.ValueToJSON/writeJSONValue, "
         "BlockStringValueContentRawBytes/ContentBytes with the lexer's Literal.Start/End trimming, helpers.go line functions, "
-        "the escaping of bytes below 0x20 in quoted strings, quotes.WrapBytes, encoding/json appendString (escapeHTML off, go1.25), value level of variables_extraction.go and "
+        "the escaping of bytes below 0x20 and the rewriting of braced unicode escapes (bytes.IndexByte, strconv.ParseUint(16, 32), "
+        "utf16.EncodeRune, fmt %04x) in quoted strings, quotes.WrapBytes, encoding/json appendString (escapeHTML off, go1.25), value level of variables_extraction.go and "
         "variables_default_value_extraction.go",
         "modelled at value level only (tree compare on the recorded upstream body): resolve input-template rendering of context "
         "variables, SetInputUndefinedVariables, graphql_datasource compactAndUnNullVariables/cleanupVariables; astjson's "
